@@ -2,6 +2,7 @@
 CONSTANTS Chans = {2, 3} Rows = {0, 13, 14} Chars = {65, 98, 32} MaxPairs = 30
   Indents = {20, 24, 28} Depths = {2, 3, 4} Tabs = {1, 2, 3}
   Kinds = {"RCL", "RDC", "EOC", "EDM", "ENM", "CR", "BS", "DER", "RU", "TO", "PAC", "PACX", "MID", "SPC", "NULL", "TEXT"}
+  Beyond = {}
   Mix <- MixEdge Bursts <- BurstsWalk
 SPECIFICATION GSpec
 INVARIANT Dump
